@@ -45,6 +45,14 @@ fn main() {
                 println!("{}", id);
             }
         }
+        "corpus" => {
+            let dir = args.get(3).expect("corpus <target> <dir>");
+            let seed = std::env::var("VERIF_SEED").ok().and_then(|s| s.trim().parse::<i128>().ok()).map(|v| v as u64).unwrap_or(0);
+            match args.get(2).map(|s| s.as_str()) {
+                Some("ctx_deser") => println!("wrote {} corpus files", vh::corpus::write_ctx_corpus(dir, 60, seed)),
+                _ => println!("no seed corpus for this target"),
+            }
+        }
         "replay" => {
             let path = args.get(2).expect("replay needs a path");
             let (prop, check, case) = vh::core::load_replay(path);
